@@ -92,6 +92,12 @@ type Key interface {
 	Shift([]byte) (Key, error)
 }
 
+// An IndexValidator can be implemented by a Key whose curve does not define child derivation for every index.
+// DeriveChild calls ValidateIndex before deriving and returns its error to the caller.
+type IndexValidator interface {
+	ValidateIndex(index uint32) error
+}
+
 // NewMasterKey creates a new master private extended key for the curve from a seed.
 func NewMasterKey(seed []byte, curve Curve) (*ExtendedKey, error) {
 	inter := make([]byte, 0, 64)
@@ -148,6 +154,13 @@ func DeriveKeyFromPath(seed []byte, curve Curve, path []uint32) (*ExtendedKey, e
 // If the parent is an extended public key, the child will also be an extended public key.
 func (e *ExtendedKey) DeriveChild(index uint32) (*ExtendedKey, error) {
 	inter := make([]byte, 0, 64)
+
+	// Check whether the key's curve defines the derivation for this index
+	if v, ok := e.Key.(IndexValidator); ok {
+		if err := v.ValidateIndex(index); err != nil {
+			return nil, err
+		}
+	}
 
 	// Check whether i ≥ 2³¹ (whether the child is a Hardened key)
 	if index >= Hardened {
